@@ -151,16 +151,34 @@ def run_one(seed, tape, opts):
     # peer-link cuts
     l2cuts = [tape.choose(3, "l2cuts")]
 
+    half_dead = []
+
+    def l2cut(l):
+        l2cuts[0] -= 1
+        # the loss is seen by both ends, or by one end first (the other
+        # learns later: RECONNECT may reach a Follower that still believes
+        # in its connection -> ABANDONING)
+        tell = tape.pick((("c", "s"), ("c", "s"), ("c",), ("s",)), "l2tell")
+        sim.net.cut(l, tell)
+        if len(tell) == 1:
+            half_dead.append(l)
+            sim.note("fault.l2cut_one_sided")
+
     def extra_faults():
-        if l2cuts[0] <= 0:
-            return []
         evs = []
+        for l in half_dead:
+            if any(e.alive and e.made and e.lost_pending is None
+                   for e in l.ends):
+                evs.append(("l2reveal:%d" % l.serial,
+                            lambda l=l: (half_dead.remove(l),
+                                         sim.net.reveal(l))))
+        if l2cuts[0] <= 0:
+            return evs
         for link in sim.net.links:
             if link.mode == "stream" and link.up and \
                     any(e.alive and e.made for e in link.ends):
                 evs.append(("l2cut:%d" % link.serial,
-                            lambda l=link: (l2cuts.__setitem__(0, l2cuts[0] - 1),
-                                            sim.net.cut(l)), 3))
+                            lambda l=link: l2cut(l), 3))
         return evs
     w.extra_fault_events = extra_faults
     w.fault_budget = max(w.fault_budget, 1)
